@@ -256,17 +256,19 @@ pub fn random_tree(r: &mut Rng) -> Vec<Sub> {
     root.lon_w = (root.lon_w * 2.0).round() / 2.0;
     root.rows = 4 + r.below(3);
     root.cols = 4 + r.below(3);
-    root.dlat = 1.0;
-    root.dlon = 1.0;
+    // (cells need not be square: the two spacings are two numbers of the header)
+    let (dlat, dlon) = *r.pick(&[(1.0, 1.0), (1.0, 1.0), (1.0, 0.5), (0.5, 1.0), (1.0, 2.0), (2.0, 1.0)]);
+    root.dlat = dlat;
+    root.dlon = dlon;
     // grids reaching the antimeridian: the east border on 180 E exactly, or beyond it with longitudes counted on
     match r.below(12) {
-        0 => root.lon_w = 180.0 - (root.cols - 1) as f64,
+        0 => root.lon_w = 180.0 - (root.cols - 1) as f64 * dlon,
         1 => root.lon_w = 177.0,
         2 => root.lon_w = -180.0,
         _ => {}
     }
-    root.lat_n = root.lat_s + (root.rows - 1) as f64;
-    root.lon_e = root.lon_w + (root.cols - 1) as f64;
+    root.lat_n = root.lat_s + (root.rows - 1) as f64 * dlat;
+    root.lon_e = root.lon_w + (root.cols - 1) as f64 * dlon;
     root.values = (0..root.rows * root.cols * 2).map(|_| (r.range(-2000, 2000) as f32) / 16.0).collect();
     // names as real files have them: upper case, mixed case ("ALbanff"), lower case, digits
     let style = r.below(4);
@@ -288,22 +290,22 @@ pub fn random_tree(r: &mut Rng) -> Vec<Sub> {
             break;
         }
         let mut g = root.clone();
-        g.dlat = 0.5;
-        g.dlon = 0.5;
+        g.dlat = 0.5 * dlat;
+        g.dlon = 0.5 * dlon;
         g.lat_s = root.lat_s;
-        g.lat_n = root.lat_s + 2.0;
-        g.lon_w = root.lon_w + j0 as f64;
-        g.lon_e = g.lon_w + 2.0;
+        g.lat_n = root.lat_s + 2.0 * dlat;
+        g.lon_w = root.lon_w + j0 as f64 * dlon;
+        g.lon_e = g.lon_w + 2.0 * dlon;
         g.rows = 5;
         g.cols = 5;
         g.values = (0..50).map(|_| (r.range(-2000, 2000) as f32) / 16.0).collect();
         let name = nm(&format!("CH{c}"));
         if r.chance(1, 2) {
             let mut gg = g.clone();
-            gg.dlat = 0.25;
-            gg.dlon = 0.25;
-            gg.lat_n = gg.lat_s + 1.0;
-            gg.lon_e = gg.lon_w + 1.0;
+            gg.dlat = 0.25 * dlat;
+            gg.dlon = 0.25 * dlon;
+            gg.lat_n = gg.lat_s + dlat;
+            gg.lon_e = gg.lon_w + dlon;
             gg.rows = 5;
             gg.cols = 5;
             gg.values = (0..50).map(|_| (r.range(-2000, 2000) as f32) / 16.0).collect();
